@@ -38,7 +38,7 @@ def facts : List InitFact := [
     imports := [], goList := [] },
   -- c12f/t0/echo.init (work-free package)
   { id := 7, hasPatchFn := false, chained := false,
-    toks := [.loadGuard, .brGuard .ret .body, .storeGuard, .callInit 1, .brRet],
+    toks := [.loadGuard, .brGuard .ret .body, .storeGuard, .callInit 1, .callInit 6, .brRet],
     imports := [1, 6], goList := [1, 6] },
   -- c12f/t0/zeta.init
   { id := 8, hasPatchFn := false, chained := false,
@@ -74,11 +74,11 @@ def facts : List InitFact := [
     imports := [4], goList := [4] },
   -- c12f/t1/kilo.init (work-free package)
   { id := 6, hasPatchFn := false, chained := false,
-    toks := [.loadGuard, .brGuard .ret .body, .storeGuard, .brRet],
+    toks := [.loadGuard, .brGuard .ret .body, .storeGuard, .callInit 5, .brRet],
     imports := [5], goList := [5] },
   -- c12f/t1.init
   { id := 7, hasPatchFn := false, chained := false,
-    toks := [.loadGuard, .brGuard .ret .body, .storeGuard, .callInit 2, .act, .brRet],
+    toks := [.loadGuard, .brGuard .ret .body, .storeGuard, .callInit 2, .callInit 6, .act, .brRet],
     imports := [2, 6], goList := [2, 6] }]
 
 def entries : List EntryFact := [
